@@ -670,6 +670,10 @@ class MainTransformer(object):
         target = self._transformer.resolve_aliases(target)
         target = node.type if target is None else target
 
+        # Enumerations and flags passed by value are plain integers
+        if isinstance(target, (ast.Enum, ast.Bitfield)):
+            return node.type.ctype is not None and node.type.ctype.endswith('*')
+
         # The pointer-ness is that of the annotated value, not of the type
         # an alias resolves to (typedef int FooInt; FooInt *p)
         return (not isinstance(target, ast.Type) or
